@@ -256,10 +256,10 @@ func drawC15(t *rapid.T) caseC15 {
 			f.Pad = rapid.SampledFrom([]int{0, 0, 1, 3}).Draw(t, "streampad")
 		}
 		if f.Kind == "xzutils_xz" {
-			f.Opt = rapid.SampledFrom([]string{"-0", "-6", "-9e", "--check=crc32", "--check=sha256", "--check=none", "--block-size=4096", "--lzma2=lc=0,lp=2,pb=1,dict=4KiB"}).Draw(t, "xzopt")
+			f.Opt = rapid.SampledFrom([]string{"-0", "-6", "-9e", "--check=crc32", "--check=sha256", "--check=none", "--block-size=4096", "--lzma2=lc=0,lp=2,pb=1,dict=4KiB", "--lzma2=dict=96KiB", "--lzma2=dict=1536KiB", "-T2 --block-size=32768"}).Draw(t, "xzopt")
 		}
 		if f.Kind == "xzutils_lzma" {
-			f.Opt = rapid.SampledFrom([]string{"-0", "-6", "-9", "--lzma1=lc=4,lp=0,pb=0,dict=64KiB"}).Draw(t, "lzopt")
+			f.Opt = rapid.SampledFrom([]string{"-0", "-6", "-9", "--lzma1=lc=4,lp=0,pb=0,dict=64KiB", "--lzma1=preset=1,dict=96KiB", "--lzma1=preset=6,dict=6MiB", "--lzma1=preset=0,dict=12KiB"}).Draw(t, "lzopt")
 		}
 		c.Files = append(c.Files, f)
 	}
@@ -600,7 +600,7 @@ func buildDir(dir string, files []fileC15, gxz string, rec *ev.Rec) (map[string]
 				format = "lzma"
 			}
 			out, ok := compressParts(f, data, func(part []byte) ([]byte, bool) {
-				o, _, code, err := runTool(dir, "xz", []string{"-c", "-T1", "--format=" + format, f.Opt}, part)
+				o, _, code, err := runTool(dir, "xz", append([]string{"-c", "-T1", "--format=" + format}, strings.Fields(f.Opt)...), part)
 				if err != nil || code != 0 {
 					rec.Class("xz-utils_missing")
 					return nil, false
